@@ -55,4 +55,8 @@ def generate(seed, tier):
                 a = g.pick(ADDRS[:5]); present.discard(a); seq.append(("r", a))
         lines += seq_lines(seq)
         g.count("random_sequences")
+    # dispatches racing with membership changes made from another thread
+    for _ in range(2 if tier == "quick" else 12):
+        lines.append("rr race %d %d # spec=C05 eq ok" % (400 if tier == "quick" else 2000, g.rint(1, 10**6)))
+        g.count("race_runs")
     return lines, g.stats
